@@ -446,6 +446,9 @@ theorem specHRun_no_hier (kind : QKind) : ∀ (os : List HOp) (l : List Bytes), 
 /-- the specification: independent FIFO queues / ordered sets, one per key; reopen is the identity -/
 def specM (kind : QKind) (σ : St) : MOp → St × QRes
   | .q k o => (upd σ k (specQ cls kind (σ k) (.op o)).1, (specQ cls kind (σ k) (.op o)).2)
+  | .a k o => match validate o with
+    | .ok qo => (upd σ k (specQ cls kind (σ k) (.op qo)).1, (specQ cls kind (σ k) (.op qo)).2)
+    | .error r => (σ, r)          -- a rejected call is the identity of the specification
   | .reopen => (σ, .bool true)
 
 def specMRun (kind : QKind) (keys : List Bytes) : St → List MOp → List (QRes × List (List Bytes × Except Exn (List Bytes)))
@@ -455,7 +458,14 @@ def specMRun (kind : QKind) (keys : List Bytes) : St → List MOp → List (QRes
 
 def mweight : MOp → Nat
   | .q _ o => hweight (.op o)
+  | .a _ o => match validate o with
+    | .ok qo => hweight (.op qo)
+    | .error _ => 0
   | .reopen => 0
+
+def mkey : MOp → Option Bytes
+  | .q k _ | .a k _ => some k
+  | .reopen => none
 
 def mtotal : List MOp → Nat
   | [] => 0
@@ -501,10 +511,38 @@ theorem injectAll_spec {kind : QKind} (hinj : kind = .dusq → ∀ a b, cls a = 
     · subst e; simp [setQ, hmem]
     · simp [setQ, e]
 
+theorem mstep_refines_q {kind : QKind} (hinj : kind = .dusq → ∀ a b, cls a = cls b → a = b)
+    {K : Bytes → Prop} {B : Nat} (hG : ∀ k, K k → ExactAt K k B) (hB : B < 16 ^ W) (hvk : ∀ k, K k → validKey (suffix k 0) = true)
+    (keys : List Bytes) (hkeys : ∀ k ∈ keys, K k) {n : Nat} {db : Db} {ms : MS} (hm : MInv K kind keys n db ms)
+    {σ : St} (hσ : ∀ k ∈ keys, σ k = (ms k).mem) (k : Bytes) (qo : QOp) (hkm : k ∈ keys) (hw : n + hweight (.op qo) ≤ B) :
+    (mstep cls kind keys db ms (.q k qo)).2.2 = (specM cls kind σ (.q k qo)).2 ∧
+    MInv K kind keys (n + hweight (.op qo)) (mstep cls kind keys db ms (.q k qo)).1 (mstep cls kind keys db ms (.q k qo)).2.1 ∧
+    ∀ k2 ∈ keys, (specM cls kind σ (.q k qo)).1 k2 = ((mstep cls kind keys db ms (.q k qo)).2.1 k2).mem := by
+  have hk := hkeys k hkm
+  have hq : QInv K k kind n db (ms k).mem (absIo db) := ⟨hm.rel, (hm.each k hkm).1, (hm.each k hkm).2, fun _ _ => rfl⟩
+  obtain ⟨db', q', h1, h2, h3⟩ := hstep_refines cls hinj hk (hG k hk) hB (hvk k hk) hq (.op qo) hw
+  simp only [hstep] at h1
+  simp only [mstep, h1, specM, hσ k hkm]
+  refine ⟨trivial, ⟨h3.rel, ?_⟩, ?_⟩
+  · intro k2 hk2
+    by_cases e : k2 = k
+    · subst e; simp only [setQ, ↓reduceIte]; exact ⟨h3.mirror, h3.nodup⟩
+    · simp only [setQ, e, ↓reduceIte]
+      rw [h3.others k2 e]; exact hm.each k2 hk2
+  · intro k2 hk2
+    by_cases e : k2 = k
+    · subst e; simp [setQ, upd, h2]
+    · simp [setQ, upd, e, hσ k2 hk2]
+
+/-- REJECTED ⇒ IDENTITY (model side): a call the method refuses changes neither the store nor any in-memory queue -/
+theorem mstep_rejected (kind : QKind) (keys : List Bytes) (db : Db) (ms : MS) (k : Bytes) (ao : AOp) (r : QRes)
+    (h : validate ao = .error r) : mstep cls kind keys db ms (.a k ao) = (db, ms, r) := by
+  simp only [mstep, h]
+
 theorem mstep_refines {kind : QKind} (hinj : kind = .dusq → ∀ a b, cls a = cls b → a = b)
     {K : Bytes → Prop} {B : Nat} (hG : ∀ k, K k → ExactAt K k B) (hB : B < 16 ^ W) (hvk : ∀ k, K k → validKey (suffix k 0) = true)
     (keys : List Bytes) (hkeys : ∀ k ∈ keys, K k) {n : Nat} {db : Db} {ms : MS} (hm : MInv K kind keys n db ms)
-    {σ : St} (hσ : ∀ k ∈ keys, σ k = (ms k).mem) (o : MOp) (ho : ∀ k qo, o = .q k qo → k ∈ keys) (hw : n + mweight o ≤ B) :
+    {σ : St} (hσ : ∀ k ∈ keys, σ k = (ms k).mem) (o : MOp) (ho : ∀ k, mkey o = some k → k ∈ keys) (hw : n + mweight o ≤ B) :
     (mstep cls kind keys db ms o).2.2 = (specM cls kind σ o).2 ∧
     MInv K kind keys (n + mweight o) (mstep cls kind keys db ms o).1 (mstep cls kind keys db ms o).2.1 ∧
     ∀ k ∈ keys, (specM cls kind σ o).1 k = ((mstep cls kind keys db ms o).2.1 k).mem := by
@@ -514,29 +552,23 @@ theorem mstep_refines {kind : QKind} (hinj : kind = .dusq → ∀ a b, cls a = c
       (fun _ h => h) db ms hm
     simp only [mstep, h1, specM]
     exact ⟨trivial, h2, fun k hk => by rw [h3 k]; exact hσ k hk⟩
-  | q k qo =>
-    have hkm := ho k qo rfl
-    have hk := hkeys k hkm
-    have hq : QInv K k kind n db (ms k).mem (absIo db) := ⟨hm.rel, (hm.each k hkm).1, (hm.each k hkm).2, fun _ _ => rfl⟩
-    obtain ⟨db', q', h1, h2, h3⟩ := hstep_refines cls hinj hk (hG k hk) hB (hvk k hk) hq (.op qo) hw
-    simp only [hstep] at h1
-    simp only [mstep, h1, specM, hσ k hkm]
-    refine ⟨trivial, ⟨h3.rel, ?_⟩, ?_⟩
-    · intro k2 hk2
-      by_cases e : k2 = k
-      · subst e; simp only [setQ, ↓reduceIte]; exact ⟨h3.mirror, h3.nodup⟩
-      · simp only [setQ, e, ↓reduceIte]
-        rw [h3.others k2 e]; exact hm.each k2 hk2
-    · intro k2 hk2
-      by_cases e : k2 = k
-      · subst e; simp [setQ, upd, h2]
-      · simp [setQ, upd, e, hσ k2 hk2]
+  | q k qo => exact mstep_refines_q cls hinj hG hB hvk keys hkeys hm hσ k qo (ho k rfl) hw
+  | a k ao =>
+    cases hv : validate ao with
+    | error r =>
+      simp only [mstep, specM, mweight, hv]
+      exact ⟨trivial, hm, hσ⟩
+    | ok qo =>
+      simp only [mweight, hv] at hw
+      have h := mstep_refines_q cls hinj hG hB hvk keys hkeys hm hσ k qo (ho k rfl) hw
+      simp only [mstep, specM, mweight, hv] at h ⊢
+      exact h
 
 theorem mrun_refines {kind : QKind} (hinj : kind = .dusq → ∀ a b, cls a = cls b → a = b)
     {K : Bytes → Prop} {B : Nat} (hG : ∀ k, K k → ExactAt K k B) (hB : B < 16 ^ W) (hvk : ∀ k, K k → validKey (suffix k 0) = true)
     (keys : List Bytes) (hkeys : ∀ k ∈ keys, K k) :
     ∀ (os : List MOp) (n : Nat) (db : Db) (ms : MS) (σ : St), MInv K kind keys n db ms → (∀ k ∈ keys, σ k = (ms k).mem) →
-      (∀ o ∈ os, ∀ k qo, o = .q k qo → k ∈ keys) → n + mtotal os ≤ B →
+      (∀ o ∈ os, ∀ k, mkey o = some k → k ∈ keys) → n + mtotal os ≤ B →
       mrun cls kind keys db ms os = specMRun cls kind keys σ os
   | [], _, _, _, _, _, _, _, _ => rfl
   | o :: os, n, db, ms, σ, hm, hσ, hos, hw => by
